@@ -351,6 +351,33 @@ def rule_leaf_pattern_kind(ctx):
     ctx.floor(rule, "leaf pattern formers", n, 2)
 
 
+def rule_opened_skolems(ctx):
+    """the witnesses a pattern opens travel with its result up to the binder that closes their scope"""
+    rule = "opened-skolems"
+    ctx.rule(rule, "in the pattern judgment, an arm that checks sub-patterns builds its result from a sub-result (`with_annotation`) or "
+                   "passes the opened witnesses explicitly (`PatternCheck::with_opened`); `PatternCheck::new`, which starts with NO "
+                   "opened witness, occurs only in arms without sub-patterns. Otherwise a package opened below that former loses its "
+                   "skolems, close_scope_k / package_telescope_k see nothing to check, and the witness escapes")
+    n = 0
+    for tyname, fn, h, m in _term_and_pattern_judgments(ctx, rule):
+        if tyname != "Pattern":
+            continue
+        loc = ctx.facts.bodies()[fn]["loc"]
+        for a in m["arms"]:
+            subs = [c for c in H.walk(a["body"]) if H.kind(c) in ("Call", "MethodCall")
+                    and (H.callee(c) or "").endswith("PatId> as zydeco_statics::check::Tyck<'a>>::tyck_k")]
+            fresh = [c for c in H.walk(a["body"]) if H.kind(c) in ("Call", "MethodCall") and (H.callee(c) or "").endswith("PatternCheck::new")]
+            if not subs:
+                continue
+            n += 1
+            ctx.check(not fresh, rule, "pattern:%s:result" % A.pat_shape(a["pat"]).split("(")[0],
+                      "the %s pattern checks sub-patterns and builds a result with PatternCheck::new (no opened witnesses): the existential "
+                      "witnesses opened by its sub-patterns are forgotten, so they can escape their scope"
+                      % A.pat_shape(a["pat"]).split("(")[0], [loc[0], (fresh[0].get("ln") if fresh else a["ln"])],
+                      detail={"former": A.pat_shape(a["pat"]), "sub_judgments": len(subs)})
+    ctx.floor(rule, "pattern formers with sub-patterns", n, 5)
+
+
 def rule_sealed_intro(ctx):
     """looking through a seal to CHECK an introduction form must not change the type that is returned"""
     rule = "sealed-intro"
@@ -492,6 +519,7 @@ def run(ctx):
     rule_binder_shadowing(ctx)
     rule_shape_assumptions(ctx)
     rule_leaf_pattern_kind(ctx)
+    rule_opened_skolems(ctx)
     rule_sealed_intro(ctx)
     rule_type_traversals(ctx)
     ctx.rule("normalisation", "type-level beta-normalisation performs the audited steps: an application is unfolded into its whole "
